@@ -461,6 +461,32 @@ class SimSocket:
             return bytearray(data)
         if self.rx_type == "memoryview":
             return memoryview(data)
+        if self.rx_type == "memoryview_slice":
+            # a view into the middle of a larger immutable object (zero-copy receive adapters slice one big buffer)
+            return memoryview(b"\x00\x07\x01" + data + b"\x00\x00")[3 : 3 + len(data)]
+        if self.rx_type in ("bytearray_reused", "memoryview_reused"):
+            # a caller that owns one receive buffer and refills it for every read (recv_into style): whatever the previous
+            # read left there is overwritten now, so anything the protocol kept by reference instead of by copy changes
+            buf = getattr(self, "_rxbuf", None)
+            if buf is None:
+                buf = self._rxbuf = bytearray(b"\xee" * (1 << 20))
+                self._rxn = 0
+            if len(data) > len(buf):
+                return bytearray(data)
+            buf[: self._rxn] = b"\xee" * self._rxn
+            buf[: len(data)] = data
+            self._rxn = len(data)
+            if self.rx_type == "memoryview_reused":
+                return memoryview(buf)[: len(data)]
+            # (a bytearray cannot shrink while something exports it: hand out a right-sized twin and refill THAT in place)
+            twin = getattr(self, "_rxtwin", None)
+            if twin is None:
+                twin = self._rxtwin = bytearray()
+            try:
+                twin[:] = data
+            except BufferError:
+                twin = self._rxtwin = bytearray(data)
+            return twin
         return data
 
     def send(self, data: Any) -> int:
